@@ -412,6 +412,12 @@ func runC22(args []string) {
 					for _, e := range jobs[i].evs {
 						apply(h, e)
 					}
+					if i%2 == 1 {
+						// every other sequence is read back after the store was closed and opened again (what a
+						// restarted broker sees): a persistent store must give the same answer
+						_ = h.Stop()
+						h = b.Direct()
+					}
 					res[i] = append(res[i], rbLine{Ev: "readback", Backend: bn, RB: readAll(h)})
 					_ = h.Stop()
 					b.Close()
